@@ -54,6 +54,8 @@ type world struct {
 	nodes []*node
 	trace []string
 	fail  bool
+	// lastHandshake: duration of the last completed handshake (sizes the window in which concurrent closes land)
+	lastHandshake time.Duration
 }
 
 func (w *world) violate(sig, msg string) {
@@ -85,7 +87,11 @@ func (w *world) record(n *node, res wire.SetupResult, peer int, wr *wire.Wire) *
 func (w *world) connect(i, j int) {
 	w.trace = append(w.trace, fmt.Sprintf("connect(%d->%d)", i, j))
 	wr := wire.New()
+	t0 := time.Now()
 	ra, rb, ok := wire.Handshake(wr, w.nodes[i].r, w.nodes[j].r, 20*time.Second)
+	if ok && ra.Err == nil && rb.Err == nil {
+		w.lastHandshake = time.Since(t0)
+	}
 	if !ok {
 		w.res.Inconcl("handshake watchdog")
 		w.fail = true
@@ -301,6 +307,88 @@ func (w *world) closeSome() {
 		t.w.A.Close()
 		t.w.B.Close()
 	}
+}
+
+// gossipRoute: a node with live links to P and Q learns a gossip route "P via Q" (Q announces its peer P), as
+// the announcement handler would store it. The direct-peer route for the live link to P must stay.
+func (w *world) gossipRoute() {
+	for _, n := range w.nodes {
+		ll := w.liveLinks(n)
+		if len(ll) < 2 {
+			continue
+		}
+		a, b := w.r.IntN(len(ll)), w.r.IntN(len(ll)-1)
+		if b >= a {
+			b++
+		}
+		P, Q := w.nodes[ll[a].peer], w.nodes[ll[b].peer]
+		if P.id.IP == Q.id.IP {
+			continue
+		}
+		w.trace = append(w.trace, fmt.Sprintf("gossip-route(%d: %d via %d)", n.idx, P.idx, Q.idx))
+		_, _ = n.r.Inst.RoutingTable().AddRoute(m.RoutingTableEntry{
+			DstIP: P.id.IP, NextHop: Q.id.IP, Source: m.RouteSourceGossip, Expires: time.Now().Add(time.Hour),
+			Path: m.SwitchPath{Hops: []m.SwitchHop{
+				{Router: n.id.IP, ForwardLabel: ll[b].link.SwitchLabel()},
+				{Router: Q.id.IP, ForwardLabel: 77, ReturnLabel: 78, Delay: 3},
+				{Router: P.id.IP, ReturnLabel: 79, Delay: 4},
+			}},
+		})
+		w.res.Count("gossip_routes_added", 1)
+		return
+	}
+}
+
+// closeDuringConnect: the manager closes the link to one peer while a connection to another peer is being set up.
+func (w *world) closeDuringConnect(i, j int) {
+	n := w.nodes[i]
+	var victim *tracked
+	for _, t := range w.liveLinks(n) {
+		if t.peer != j {
+			victim = t
+			break
+		}
+	}
+	if victim == nil {
+		w.connect(i, j)
+		return
+	}
+	w.trace = append(w.trace, fmt.Sprintf("close-by-manager(%d: peer %d)-during-connect(%d->%d)", i, victim.peer, i, j))
+	reg := n.r.Inst.PeeringV.GetLink(w.nodes[victim.peer].id.IP)
+	for _, o := range n.links {
+		if o.link == reg {
+			o.closed = true
+			for _, p := range w.nodes[o.peer].links {
+				if p.w == o.w {
+					p.closed = true
+				}
+			}
+		}
+	}
+	// the close lands anywhere from the start of the handshake to shortly after it usually ends
+	span := w.lastHandshake*3/2 + 200*time.Microsecond
+	delay := time.Duration(w.r.Int64N(int64(span)))
+	t0 := time.Now()
+	done := make(chan struct{})
+	go func() {
+		defer close(done)
+		time.Sleep(delay)
+		n.r.Inst.PeeringV.CloseLink(w.nodes[victim.peer].id.IP)
+	}()
+	wr := wire.New()
+	ra, rb, ok := wire.Handshake(wr, n.r, w.nodes[j].r, 20*time.Second)
+	if ra.Err == nil && rb.Err == nil {
+		w.lastHandshake = time.Since(t0)
+	}
+	<-done
+	if !ok {
+		w.res.Inconcl("handshake watchdog")
+		w.fail = true
+		return
+	}
+	w.record(n, ra, j, wr)
+	w.record(w.nodes[j], rb, i, wr)
+	w.res.Count("closes_during_connect", 1)
 }
 
 // brokenSetup starts a connection and kills it mid-handshake.
@@ -519,6 +607,12 @@ func runSequence(res *core.Result, r *rand.Rand, ids []*m.Address, keyPrefix str
 			interesting = true
 		case k < 76:
 			w.labelCollision()
+			interesting = true
+		case k < 82:
+			w.gossipRoute()
+			interesting = true
+		case k < 88:
+			w.closeDuringConnect(i, j)
 			interesting = true
 		default:
 			w.closeSome()
